@@ -86,6 +86,21 @@ def plain_transform(x=0, scale=1):
 @task(namespace="alpha", name="other")
 def alpha_other(x=0, scale=1):
     return ("alpha-other", x - scale)
+
+
+# config_args are not part of the evaluation hash: attempts that differ only in them share a scratch dir
+@task(config_args=["workers"])
+def shrink(x, workers=1):
+    if workers < 1:
+        raise ValueError("workers must be >= 1", workers)
+    return x * 2
+
+
+@task(config_args=["tmp_dir", "verbose"])
+def render(x, tmp_dir="/tmp", verbose=False):
+    if not tmp_dir:
+        raise OSError("no tmp_dir")
+    return ("rendered", x)
 '''
 TASK_ATTRS = ["alpha_transform", "beta_transform", "plain_transform", "alpha_other", "f"]
 
@@ -437,7 +452,8 @@ class Check(PropertyCheck):
     theorems = ["C32_single_eq_local", "C32_single_eq_local_fresh", "C32_array_elem_eq_local",
                 "C32_array_elem_eq_local_batch", "C32_own_paths", "C32_array_index_env", "C32_jobname_roundtrip",
                 "C32_jobname_roundtrip_hex", "C32_eval_hashes_file", "C32_reunite_only_same_hash", "C32_nonvacuous",
-                "C32_array_group_own_task", "C32_array_group_elem_eq_local", "C32_grouping_by_name_refuted"]
+                "C32_array_group_own_task", "C32_array_group_elem_eq_local", "C32_grouping_by_name_refuted",
+                "C32_attempts_eq_local", "C32_attempts_after_failures", "C32_stage_if_absent_refuted"]
     extra_modules = ["Base.Lit", "Model.ScratchCases"]
     allowed_axioms = []
     section_premises = [
@@ -610,6 +626,9 @@ class Check(PropertyCheck):
             data.write_text("version 2")
         elif kind == "out_corrupt":
             (d / "output").write_bytes(b"garbage")
+        elif kind == "input_other":          # what an earlier attempt with other (config) arguments staged
+            with open(d / "input", "wb") as fh:
+                pickle_dump([("boom", "earlier attempt"), {}], fh)
 
     def _mark_invalid(self, real, prefix, it):
         """ids of pickled values in the scratch dir that the type registry rejects now"""
@@ -646,7 +665,7 @@ class Check(PropertyCheck):
             stale = []
             for j in jobs:
                 if r.random() < 0.35:
-                    kind = r.choice(["error", "out_same", "out_other", "out_invalid", "out_corrupt", "out_same", "error"])
+                    kind = r.choice(["error", "out_same", "out_other", "out_invalid", "out_corrupt", "out_same", "error", "input_other", "input_other"])
                     self._stale(real, prefix, j, kind, it)
                     stale.append(kind)
             pre = real.snapshot(prefix, it)
@@ -1051,6 +1070,70 @@ class Check(PropertyCheck):
                                              {"kind": "arraypath", "spec": repr(spec), "order_seed": k}))
             shutil.rmtree(real.dir / prefix, ignore_errors=True)
 
+
+    # ------------------------------------------------------------------ attempts of one evaluation hash
+    def _run_attempts(self, real, prefix, attr, history):
+        """history: [(args, kwargs, no_cache)]; every attempt goes through the real get_oneshot_command (which
+        stages the input), oneshot and the readers on ONE scratch prefix. Returns problems."""
+        from redun.executors.command import get_oneshot_command
+        from redun.executors.scratch import SCRATCH_OUTPUT, get_job_scratch_file
+        from redun.task import hash_args_eval
+        from redun.value import get_type_registry
+        task = getattr(real.wf, attr)
+        problems = []
+        for n, (a, kw, no_cache) in enumerate(history):
+            h = hash_args_eval(get_type_registry(), task, a, kw)[0]
+            job = real.job(h, a, kw)
+            loc = real.local_task(task, a, kw)
+            cached = os.path.exists(get_job_scratch_file(prefix, job, SCRATCH_OUTPUT)) and not no_cache
+            command = get_oneshot_command(prefix, job, task, a, kw, job_options={"cache_scope": "NONE"} if no_cache else {})
+            out = real.oneshot(command, {})
+            rem = real.collect(prefix, job, out[0] == "ret")
+            if cached and loc[0] != "ret":
+                self.stat("oracle_attempts", "not compared: cached output of the same evaluation hash, local call raises")
+                continue        # outside the statement: the scratch output answers for the evaluation hash
+            self.stat("oracle_attempts", "compared")
+            if not same_outcome(rem, loc):
+                problems.append(f"attempt {n + 1} of {task.fullname} (evaluation hash {h[:8]}): {a!r} {kw!r} after "
+                                f"{[(x, y) for x, y, _ in history[:n]]!r} on the same scratch dir: remote {show(rem)} "
+                                f"differs from local {show(loc)}")
+        return problems
+
+    def _oracle_attempts(self, real):
+        r = self.rng
+        n = 60 if self.tier == "quick" else 1500
+        fixed = [("shrink", [((7,), {"workers": 0}, False), ((7,), {"workers": 3}, False)]),
+                 ("render", [((1,), {"tmp_dir": ""}, True), ((1,), {"tmp_dir": "/scratch", "verbose": True}, True)])]
+        for k in range(n):
+            if k < len(fixed):
+                attr, history = fixed[k]
+            else:
+                attr = r.choice(["shrink", "render"])
+                xs = [r.randint(0, 3) for _ in range(r.choice([1, 1, 2]))]
+                history = []
+                for _ in range(r.choice([2, 3, 4])):
+                    x = r.choice(xs)
+                    if attr == "shrink":
+                        kw = {"workers": r.choice([0, 0, 1, 3, 8])} if r.random() < 0.85 else {}
+                        a = (x,)
+                        if r.random() < 0.2 and kw:
+                            a, kw = (x, kw["workers"]), {}
+                    else:
+                        kw = {}
+                        if r.random() < 0.8:
+                            kw["tmp_dir"] = r.choice(["", "", "/tmp", "/scratch"])
+                        if r.random() < 0.4:
+                            kw["verbose"] = r.random() < 0.5
+                        a = (x,)
+                    history.append((a, kw, r.random() < 0.3))
+            prefix = f"t{k}"
+            problems = self._run_attempts(real, prefix, attr, history)
+            self.count(("attempts", attr, repr(history)), len(history))
+            if problems and len(self.findings) < 40:
+                self.findings.append(Finding(f"attempts:{attr}:{history!r}"[:200], problems[0],
+                                             {"kind": "attempts", "task": attr, "history": repr(history)}))
+            shutil.rmtree(real.dir / prefix, ignore_errors=True)
+
     # ------------------------------------------------------------------ oracle
     def oracle(self):
         real = Real()
@@ -1065,6 +1148,7 @@ class Check(PropertyCheck):
             for name, fn in (("jobnames", self._oracle_jobnames), ("single", lambda: self._oracle_single(real)),
                              ("arrays", lambda: self._oracle_arrays(real)),
                              ("array_path", lambda: self._oracle_array_path(real)),
+                             ("attempts", lambda: self._oracle_attempts(real)),
                              ("subprocess", lambda: self._oracle_subprocess(real)),
                              ("reunite", lambda: self._oracle_reunite(real))):
                 t0 = time.time()
@@ -1294,6 +1378,11 @@ class Check(PropertyCheck):
                                     via=real.oneshot_subprocess if r.get("subprocess") else None)
             if probs:
                 bad = probs[0][1]
+            shutil.rmtree(real.dir / "rp", ignore_errors=True)
+        elif r.get("kind") == "attempts":
+            probs = self._run_attempts(real, "rp", r["task"], eval(r["history"]))
+            if probs:
+                bad = probs[0]
             shutil.rmtree(real.dir / "rp", ignore_errors=True)
         elif r.get("kind") == "arraypath":
             probs, _g, _j, _s = self._run_array_path(real, "rp", eval(r["spec"]), order_seed=r.get("order_seed", 0))
